@@ -39,6 +39,18 @@ def gen_headers(t, maxn=3):
     return hs
 
 
+APPEND_VALUES = ["Origin", "no-transform", "é", "Origin\r\nSet-Cookie: sid=attacker", "nul\x00", "line\n"]
+
+
+def gen_appends(t):
+    """headers.append(name, value) calls made on the finished response object (the CORS-layer idiom): the name in any
+    spelling, on a header the response may or may not carry already; a value with CR / LF / NUL is an illegal caller
+    argument - refused with ValueError or never on the wire."""
+    if t.draw(4):
+        return []
+    return [(t.choice(HDR_NAMES[:6] + ["Vary", "vary"]), t.choice(APPEND_VALUES)) for _ in range(1 + t.draw(2))]
+
+
 def gen_cookies(t, maxn=3):
     cs = []
     for _ in range(t.draw(maxn + 1) if t.draw(2) else 0):
@@ -60,6 +72,7 @@ def gen_recipe(t, kinds=None, files=None):
     kinds = kinds or ["response", "text", "html", "json", "redirect", "stream", "sse", "file"]
     kind = t.choice([k for k in kinds if k != "file" or files])
     r = {"kind": kind, "status": t.choice(STATUSES) if t.draw(2) else 200, "headers": gen_headers(t), "cookies": gen_cookies(t)}
+    r["appends"] = gen_appends(t)
     r["status_enum"] = t.draw(5) == 0
     if kind in ("text", "html"):
         r["content"] = t.choice(TEXTS)
@@ -117,6 +130,11 @@ def _apply_common(resp, r):
             resp.delete_cookie(c["key"])
         else:
             resp.set_cookie(c["key"], c["value"], **kw)
+    for name, value in r.get("appends") or ():
+        try:
+            resp.headers.append(name, value)
+        except ValueError:
+            pass            # refused: the caller was told
     return resp
 
 
